@@ -284,6 +284,24 @@ def RoundTrips [DecidableEq α] (P : Params α) (m r : Mesh α) : Bool :=
        r.nrm.isSome && r.nrm == expectedNormals P ps m.nrm (chunks m.indices)
      else r.nrm == none)
 
+/-! ### ReadMesh → WriteMesh (exact behaviour; clause 3 of C07 is read at the `Read`/`Write` level, a mesh
+    has no place for the header or the attribute word) -/
+
+/-- `stl.ReadMesh` followed by `stl.WriteMesh` -/
+def resaveMesh (P : Params α) (bs : List Byte) : Except Err (List Byte) :=
+  match readMesh P bs with
+  | .ok m => writeMesh P m
+  | .error e => .error e
+
+/-- what a record becomes: positions widened and narrowed again; the normal re-derived from the three (equal)
+    corner normals ReadMesh made — if the read mesh has a normal attribute at all (`keepN`) —; attribute 0 -/
+def resaveTri (P : Params α) (keepN : Bool) (t : Tri) : Tri :=
+  ⟨if keepN then (P.avgNormal (triNormal P t) (triNormal P t) (triNormal P t)).map P.q32 else zeroV,
+   (t.v1.map P.up).map P.q32, (t.v2.map P.up).map P.q32, (t.v3.map P.up).map P.q32, 0⟩
+
+def resaveTris (P : Params α) (ts : List Tri) : List Tri :=
+  ts.map (resaveTri P (ts.any fun t => !isZeroV t.n))
+
 /-- the STRICT reading of the normal clause of C07: the read-back mesh carries, for EVERY triangle, a
     facet normal — the stored one where it is non-zero, the geometric one otherwise (in particular for a
     mesh that stores no normals at all).  The code does not satisfy this (see
